@@ -1,0 +1,54 @@
+//go:build verif
+
+package runner
+
+// Machine-checked contracts for /verif (gowp). Comment-only file: it adds no code.
+
+// ---- C14 ----
+// A submission is handed to a goroutine only after the task manager accepted (created) it.
+//@ func (*Runner).Run [C14]
+//@   layers contract trace
+//@   trace SandboxesManager.Get as SANDBOX
+//@   trace TasksUnit.FromScope as MANAGER bind mgr
+//@   trace TasksManager.Create as CREATE bind created
+//@   trace go:runGo as SPAWN
+//@   at_call TasksManager.Create requires $0 == pip
+//@   at_call TasksUnit.FromScope requires $0 == pip.Context.Scope
+//@   at_call runGo requires $1 == mgr.0 && $3 == created.0
+//@   trace_ensures err == nil : ^SANDBOX MANAGER CREATE SPAWN $
+//@   trace_ensures err != nil : !SPAWN
+
+// The body (sandbox.Run) starts only after waitForTasks returned nil; if it returned an error
+// the body never runs, the error is appended to the task's scope, and on every path the lock
+// handler is released after it was taken and the task and its context are closed exactly once.
+//@ func (*Runner).runGo [C14 C15]
+//@   layers contract trace
+//@   trace waitForTasks as WAITLIST bind werr
+//@   trace TaskWriter.LockMap as LOCKMAP bind lm
+//@   trace SharedMutex.Lock as LOCK
+//@   trace Sandbox.Run as RUN bind runErr
+//@   trace UnlockHandler.Unlock as UNLOCK
+//@   trace Scope.AppendError as APPERR
+//@   trace IOContext.Close as CTXCLOSE
+//@   trace TaskWriter.Close as TASKCLOSE
+//@   at_call waitForTasks requires $1 == task && $2 == tasksManager
+//@   at_call SharedMutex.Lock requires $0 == lm
+//@   at_call Sandbox.Run requires $recv == sandbox
+//@   trace_ensures werr != nil : ^WAITLIST APPERR CTXCLOSE TASKCLOSE $
+//@   trace_ensures werr == nil : ^WAITLIST LOCKMAP LOCK RUN (APPERR )*UNLOCK CTXCLOSE TASKCLOSE $
+//@   trace_ensures werr == nil && runErr != nil : ^WAITLIST LOCKMAP LOCK RUN APPERR UNLOCK CTXCLOSE TASKCLOSE $
+
+// Every name of the wait list is looked up in order; the result is nil only if every named
+// task exists, finished (Wait returned nil) and holds no error.
+//@ func (*Runner).waitForTasks [C14]
+//@   layers contract trace
+//@   trace TaskWriter.WaitList as WL bind wl
+//@   trace TasksManager.Get as GET bind got
+//@   trace Task.Wait as WAIT bind waited
+//@   trace Task.Errors as ERRS bind terrs
+//@   loop 1 invariant -1 <= $i && $i < len(wl)
+//@   loop 1 step $i == prev($i) + 1 && taskName == wl[$i] && ok && got.1 && waited == nil && len(terrs) == 0
+//@   at_call TasksManager.Get requires $0 == taskName && $recv == tasksManager
+//@   at_call Task.Wait requires $recv == got.0
+//@   at_call Task.Errors requires $recv == got.0
+//@   ensures err == nil ==> $i + 1 >= len(wl)
